@@ -519,7 +519,11 @@ func (fr *frame) exec(in ssa.Instruction, st *State, reach string) {
 		// it is claimed only for functions whose goroutines share nothing but lock-protected state and
 		// are joined (WaitGroup) before their effects are read - stated as an assumption.
 		if fc.c != nil && fc.c.Opts["go-sequential"] != "" {
-			fc.assumes = append(fc.assumes, "fork/join in "+fc.short+": every `go` statement is executed as a synchronous call (one schedule: each goroutine runs to completion when started); sound for the stated postconditions only if the goroutines share nothing but mutex-protected state and are joined before their effects are read (not checked); blocking and scheduling are not modelled")
+			fc.assumes = append(fc.assumes, "fork/join in "+fc.short+": every `go` statement is executed as a synchronous call (one schedule: each goroutine runs to completion when started; a goroutine that consumes a channel - it calls a function whose contract says `opt run-at-join` - runs at the next WaitGroup.Wait instead, when the channel is complete); sound for the stated postconditions only if the goroutines share nothing but mutex-protected state and channels and are joined before their effects are read (not checked); blocking and scheduling are not modelled")
+			if fr.consumerGoroutine(&i.Call) {
+				fr.pendingGo = append(fr.pendingGo, i)
+				return
+			}
 			fr.call(i, &i.Call, st, reach)
 			return
 		}
@@ -1213,4 +1217,32 @@ func singleStore(a *ssa.Alloc) bool {
 		}
 	}
 	return n == 1
+}
+
+
+// consumerGoroutine: the spawned function literal calls a function whose contract is marked
+// `opt run-at-join` (it consumes a channel that has to be complete).
+func (fr *frame) consumerGoroutine(c *ssa.CallCommon) bool {
+	var f *ssa.Function
+	switch x := c.Value.(type) {
+	case *ssa.MakeClosure:
+		f, _ = x.Fn.(*ssa.Function)
+	case *ssa.Function:
+		f = x
+	}
+	if f == nil {
+		return false
+	}
+	for _, b := range f.Blocks {
+		for _, in := range b.Instrs {
+			if ci, ok := in.(ssa.CallInstruction); ok {
+				if callee := ci.Common().StaticCallee(); callee != nil {
+					if ct := fr.fc.e.specs.Funcs[fnKey(callee)]; ct != nil && ct.Opts["run-at-join"] != "" {
+						return true
+					}
+				}
+			}
+		}
+	}
+	return false
 }
